@@ -46,7 +46,7 @@ func ParseRaceLog(text string) []RaceReport {
 			// the owner of an access is the first frame (from the top) that belongs to
 			// tacquito or to the harness: standard-library frames above it (reflect,
 			// fmt, maps, ...) only carry out the access on the owner's behalf
-			for _, l := range lines[1:] {
+			for li, l := range lines[1:] {
 				if !strings.HasPrefix(l, "  ") || strings.HasPrefix(l, "      ") {
 					continue
 				}
@@ -57,6 +57,21 @@ func ParseRaceLog(text string) []RaceReport {
 				if strings.HasPrefix(fn, modPrefix) {
 					first = strings.TrimPrefix(fn, modPrefix)
 					break
+				}
+				// a closure of tacquito inlined into its caller is NAMED after the caller's package
+				// (verif/h/checks.f.func8.SetHeaderRandomSessionID.3) but its code lives in a tacquito
+				// source file: the file decides
+				if li+2 < len(lines) {
+					file := strings.TrimSpace(lines[li+2])
+					if rel, ok := underRepo(file); ok {
+						parts := strings.Split(fn, ".")
+						name := parts[len(parts)-1]
+						if len(parts) >= 2 && len(name) <= 2 {
+							name = parts[len(parts)-2] + "." + name
+						}
+						first = "(" + rel + ")." + name
+						break
+					}
 				}
 				if strings.HasPrefix(fn, "verif/h/") {
 					top = fn
@@ -70,6 +85,24 @@ func ParseRaceLog(text string) []RaceReport {
 		out = append(out, rr)
 	}
 	return out
+}
+
+// underRepo reports whether a "file:line +0x.." line of a stack names a file of the tacquito tree
+// under test and returns its path relative to that tree (without the line number).
+func underRepo(fileLine string) (string, bool) {
+	root := os.Getenv("VERIF_REPO")
+	if root == "" {
+		root = "/repo"
+	}
+	root = strings.TrimRight(root, "/") + "/"
+	if !strings.HasPrefix(fileLine, root) {
+		return "", false
+	}
+	rel := strings.TrimPrefix(fileLine, root)
+	if i := strings.Index(rel, ":"); i > 0 {
+		rel = rel[:i]
+	}
+	return rel, true
 }
 
 // Signature builds the de-duplication key of a report.
